@@ -1,9 +1,11 @@
 """C15 -- delayed task creation happens once, after its trigger   (model M1+, DESIGN §5 C15)
 
 (T) lean/DoitModel/Props/C15.lean: C15_once / C15_once_count (no creator is evaluated twice, all schedules, under the
-    decidable hypotheses resolvesB/coversB), C15_after_trigger (every creator evaluation is preceded by the terminal
-    report of the creator's `executed` task), C15_loader_after_deps.  created_obey / target: full statements kept as
-    `def`, evaluated by the monitor.
+    decidable hypotheses resolvesB/coversB; once_needs_covers: false without coversB = open finding
+    creates-not-yielded), C15_after_trigger (every creator evaluation is preceded by the terminal report of the
+    creator's `executed` task), C15_loader_after_deps, C15_created_at_most_once / C15_report_means_finished (once-only
+    half of created_obey).  Ordering half of created_obey and the target rule: full statements kept as `def`,
+    evaluated by the monitor.
 (K) generated dodo namespaces: static tasks + `create_after` creators (executed / creates=[..] / target_regex,
     sub-task yielding creators, explicit-basename creators, creators triggered by another creator's task), selections
     by task, sub-task and target (also --auto-delayed-regex), serial / MThreadRunner under the deterministic scheduler
@@ -57,15 +59,18 @@ META = {
                   'implementation trace'),
     'design_ref': '§5 C15, §4 M1+, §6.3, §6.4',
     'level_text': ('Machine-checked: C15_once / C15_once_count (no task-creator is evaluated twice in any reachable '
-                   'state, every schedule and runner, under resolvesB and coversB), C15_after_trigger (a creator is '
-                   'evaluated only after the terminal report of its `executed` task), C15_loader_after_deps.  The '
-                   'ordering / once-only / up-to-date rules for created tasks and the target rule are full-statement '
-                   'monitors on every implementation trace (definitions C15_created_obey_full, C15_target_full; not '
-                   'theorems).  The model is tied to doit on every run by trace acceptance.'),
-    'level_note': ('created_obey and target: monitor-only.  Regex matching and the creators are oracles (computed by '
-                   'the harness with Python re / from the generated yields).  Parallel runners are over-approximated '
-                   '(no worker accounting; that is C02).  Open finding subtask-then-regex-target is recognised by a '
-                   'specific signature.'),
+                   'state, every schedule and runner, under resolvesB and coversB; once_needs_covers shows coversB is '
+                   'necessary), C15_after_trigger (a creator is evaluated only after the terminal report of its '
+                   '`executed` task), C15_loader_after_deps, C15_created_at_most_once and C15_report_means_finished '
+                   '(every task, static or created, is handed to execution at most once and reported at most once).  '
+                   'The ordering / up-to-date rules for created tasks and the target rule are full-statement monitors '
+                   'on every implementation trace (definitions C15_created_obey_full, C15_target_full; not theorems).  '
+                   'The model is tied to doit on every run by trace acceptance.'),
+    'level_note': ('Ordering half of created_obey and target: monitor-only.  Regex matching and the creators are '
+                   'oracles (computed by the harness with Python re / from the generated yields).  Parallel runners '
+                   'are over-approximated (no worker accounting; that is C02).  Two open findings are recognised by '
+                   'specific signatures: subtask-then-regex-target, creates-not-yielded (= C15_once without its '
+                   'hypothesis coversB).'),
     'rule': ('random namespaces: 1-5 static tasks (deps, up-to-date, failing), 1-3 create_after creators (executed '
              'static or another creator\'s task | none; creates=[1-3 names] | none; target_regex | none; 0-3 yields as '
              'sub-tasks or explicit basenames with deps/targets/up-to-date/failing), late static tasks depending on '
@@ -999,7 +1004,7 @@ def run(ctx, scale=1.0):
     ctx.extra['exhaustive_small_scope'] = {'cases': len(ex), 'what': '3 creator styles x 4 trigger states x 6 selection '
                                            'shapes x {serial, thread-2 under 5 schedule policies}'}
     rng = ctx.rng
-    n_rand = int((2400 if quick else 70000) * ctx.boost * scale)
+    n_rand = int((3000 if quick else 60000) * ctx.boost * scale)
     n_proc = int((6 if quick else 150) * min(ctx.boost, 2) * scale)
     gen = [(rng.randrange(1 << 60), None, None) for _ in range(n_rand)]
     size = 25 if quick else 60
